@@ -16,6 +16,7 @@ import (
 	"errors"
 	"fmt"
 	"io"
+	"os"
 	"strings"
 
 	"github.com/cgi-fr/jsonline/pkg/jsonline"
@@ -147,7 +148,63 @@ func classifyStream(err error) string {
 var errProcessor = fmt.Errorf("processor says no")
 
 func runStream(ti, to jsonline.Template, proc string, revs []readEv, wevs []string) string {
-	r := &scriptReader{evs: revs}
+	return runStreamFrom(ti, to, proc, &scriptReader{evs: revs}, wevs)
+}
+
+// stdReader: the bytes behind one of the readers a program would really hand over — each with the optional methods
+// it happens to have (Len, Size, WriteTo, ReadByte, Stat …), which a library may look at.
+func stdReader(kind string, data []byte) (io.Reader, func()) {
+	switch kind {
+	case "strings":
+		return strings.NewReader(string(data)), func() {}
+	case "bytes":
+		return bytes.NewReader(data), func() {}
+	case "buffer":
+		return bytes.NewBuffer(append([]byte{}, data...)), func() {}
+	case "bufio":
+		return bufio.NewReaderSize(bytes.NewReader(data), 4096), func() {}
+	case "file":
+		f, err := os.CreateTemp(workDir(), "stream-*.jsonl")
+		if err != nil {
+			return bytes.NewReader(data), func() {}
+		}
+		_, _ = f.Write(data)
+		_, _ = f.Seek(0, io.SeekStart)
+		return f, func() { f.Close(); os.Remove(f.Name()) }
+	default: // "pipe"
+		pr, pw := io.Pipe()
+		go func() { _, _ = pw.Write(data); pw.Close() }()
+		return pr, func() { pr.Close() }
+	}
+}
+
+func workDir() string {
+	if base := os.Getenv("VERIF_WORK"); base != "" {
+		return base
+	}
+	return "."
+}
+
+var stdReaderKinds = []string{"strings", "bytes", "buffer", "bufio", "file", "pipe"}
+
+// emitStreamStd: the stream of `data` read from a standard reader of the given kind; the model is handed the plain
+// stream (whole-buffer chunks): what the reader IS must not matter.
+func emitStreamStd(cw *caseWriter, prop string, ti, to []colDesc, proc, kind string, data []byte) {
+	r, done := stdReader(kind, data)
+	obs := runStreamFrom(buildTemplate(ti), buildTemplate(to), proc, r, nil)
+	done()
+	ext := map[string]string{}
+	if len(data) < 1<<20 {
+		for _, l := range bytes.Split(data, []byte("\n")) {
+			extForJSON(l, ext)
+		}
+	}
+	revs := chunk(data, []int{1 << 20})
+	cw.count("stdreader:" + kind)
+	cw.emit(prop+" "+kind+" reader "+descStr(ti)+descStr(to)+proc+fmt.Sprint(len(data)), true, "stream", prop, descStr(ti), descStr(to), proc, readerStr(revs), "-", extStr(ext), obs)
+}
+
+func runStreamFrom(ti, to jsonline.Template, proc string, r io.Reader, wevs []string) string {
 	w := &scriptWriter{evs: wevs}
 	var calls []string
 	n := 0
@@ -381,6 +438,23 @@ func genC07(cw *caseWriter, seed uint64, tier string) {
 		data := []byte(`{"a":1}` + "\n" + line + "\n" + `{"a":2}` + "\n")
 		emitStream(cw, "C07", nil, nil, "tolerant", chunk(data, []int{1 << 16}), nil, data[:20], true)
 	}
+	// a LAST line without final newline whose length is exactly (and one around) a multiple of the 64 KiB buffer — a
+	// reader by pieces learns of the end of the input only on the call after the last full piece —, whole and in pieces
+	for _, l := range []int{4095, 4096, 4097, 65535, 65536, 65537, 131072, 196608} {
+		line := `{"k":"` + strings.Repeat("y", l-8) + `"}`
+		data := []byte(`{"a":1}` + "\n" + line)
+		for _, sz := range [][]int{{1 << 20}, {65536}, {4096}} {
+			emitStream(cw, "C07", nil, nil, "tolerant", chunk(data, sz), nil, data[:20], true)
+		}
+		emitStream(cw, "C07", nil, nil, "default", chunk([]byte(line), []int{1 << 20}), nil, data[:20], true)
+	}
+	// the streams from the readers programs really hand over (each with its own optional methods)
+	for i := 0; i < 12; i++ {
+		data := randStreamBytes(r, 7)
+		for _, kind := range stdReaderKinds {
+			emitStreamStd(cw, "C07", pairs[0][0], pairs[0][1], pick(r, []string{"tolerant", "default"}), kind, data)
+		}
+	}
 }
 
 // emitStreamTwice: Stream() is called, ends on a fatal write failure (default processor), and is called AGAIN on
@@ -585,6 +659,19 @@ func genC08(cw *caseWriter, seed uint64, tier string) {
 		}
 	} else {
 		emitStream(cw, "C08", nil, nil, "tolerant", chunk([]byte("{\"a\":1}\n"+big), []int{1 << 20}), nil, nil, true)
+	}
+	// the same from readers that know their size (a library may size its buffer from Len() / Stat()), quick: two kinds
+	kinds := []string{"strings", "file"}
+	if tier == "thorough" {
+		kinds = stdReaderKinds
+	}
+	for _, kind := range kinds {
+		emitStreamStd(cw, "C08", nil, nil, "tolerant", kind, []byte("{\"a\":1}\n"+big+"\n{\"a\":2}\n"))
+	}
+	for _, kind := range stdReaderKinds {
+		for _, data := range streams {
+			emitStreamStd(cw, "C08", ti, to, "default", kind, data)
+		}
 	}
 	emitStreamJl(cw, "C08", nil, nil, []byte("{\"a\":1}\n"+big+"\n{\"a\":2}\n"), false)
 	emitStreamJl(cw, "C08", nil, nil, []byte("{\"a\":1}\n"+big[:len(big)-1]+"\n{\"a\":2}\n"), false)
